@@ -196,7 +196,6 @@ func (p *queueProcessor) drainQueue() {
 func (p *queueProcessor) tryProcessQueueItems() {
 	for p.queue.Size() > 0 {
 		reqID := p.queue.DequeueIfValueRelevant()
-		verifhook.Event("queue.dequeued", reqID)
 		if reqID == "" {
 			p.logger.Trace().Msg("The next request to be processed does not belong to this Gateway instance")
 			continue
